@@ -57,3 +57,75 @@ def CacheInv (H : List UInt8 → List UInt8) (heap : Heap) (cache : Cache) : Pro
   ∀ p i, cache.lookup p = some i → ∀ fuel c, tree heap fuel p = some c → Cell.info H c = .ok i
 
 end Tongo.Memo
+
+namespace Tongo.Memo
+open Tongo
+
+/-- `Hasher.cacheHex map[*Cell]string`: the second table of a Hasher -/
+abbrev HexCache := List (Nat × String)
+
+/-- a `boc.Hasher`: the memo table of immutable cells and the table of hex strings -/
+structure HasherState where
+  cache : Cache
+  hex : HexCache
+
+/-- `Hasher.Hash(c)` on the hasher's state (the hex table is not touched) -/
+def hasherHashSt (H : List UInt8 → List UInt8) (heap : Heap) (fuel p : Nat) (st : HasherState) :
+    Outcome (List UInt8 × HasherState) := do
+  let (h, cache) ← hasherHash H heap fuel p st.cache
+  pure (h, { st with cache := cache })
+
+/-- `Hasher.HashString(c)`: look the pointer up in `cacheHex`; otherwise `Hash`, and only on success store the hex
+string — an error is returned and nothing is stored -/
+def hasherHashString (H : List UInt8 → List UInt8) (heap : Heap) (fuel p : Nat) (st : HasherState) :
+    Outcome (String × HasherState) :=
+  match st.hex.lookup p with
+  | some s => .ok (s, st)
+  | none => do
+    let (h, cache) ← hasherHash H heap fuel p st.cache
+    let s := Hex.encode h
+    pure (s, { cache := cache, hex := (p, s) :: st.hex })
+
+/-- every entry of the hex table is what `Cell.HashString()` returns for the tree that pointer denotes -/
+def HexInv (H : List UInt8 → List UInt8) (heap : Heap) (hex : HexCache) : Prop :=
+  ∀ p s, hex.lookup p = some s → ∀ fuel c, tree heap fuel p = some c → Cell.hashString H c = .ok s
+
+def StateInv (H : List UInt8 → List UInt8) (heap : Heap) (st : HasherState) : Prop :=
+  CacheInv H heap st.cache ∧ HexInv H heap st.hex
+
+/-- a call of one of the Hasher's entry points on pointer `p` -/
+inductive Call where
+  | hash (p : Nat)
+  | hashString (p : Nat)
+
+/-- outcome of a call with the state dropped: hash bytes or hex string, error, panic -/
+inductive Answer where
+  | bytes (b : List UInt8)
+  | str (s : String)
+  | err (e : String)
+  | panic (p : String)
+  deriving DecidableEq, Repr
+
+/-- a sequence of calls on one Hasher. After a failed call the state is the one before the call (Go may have added
+valid entries for sub-cells hashed before the failure; the theorems hold for every valid state). -/
+def runCalls (H : List UInt8 → List UInt8) (heap : Heap) (fuel : Nat) : List Call → HasherState → List Answer
+  | [], _ => []
+  | .hash p :: rest, st =>
+    match hasherHashSt H heap fuel p st with
+    | .ok (b, st') => .bytes b :: runCalls H heap fuel rest st'
+    | .err e => .err e :: runCalls H heap fuel rest st
+    | .panic x => .panic x :: runCalls H heap fuel rest st
+  | .hashString p :: rest, st =>
+    match hasherHashString H heap fuel p st with
+    | .ok (s, st') => .str s :: runCalls H heap fuel rest st'
+    | .err e => .err e :: runCalls H heap fuel rest st
+    | .panic x => .panic x :: runCalls H heap fuel rest st
+
+/-- the same call answered by the uncached functions `Cell.Hash()` / `Cell.HashString()` on the denoted tree -/
+def plainAnswer (H : List UInt8 → List UInt8) (heap : Heap) (fuel : Nat) : Call → Option Answer
+  | .hash p => (tree heap fuel p).map fun c => match Cell.reprHash H c with
+    | .ok b => .bytes b | .err e => .err e | .panic x => .panic x
+  | .hashString p => (tree heap fuel p).map fun c => match Cell.hashString H c with
+    | .ok s => .str s | .err e => .err e | .panic x => .panic x
+
+end Tongo.Memo
